@@ -63,6 +63,20 @@ claim("C09",
       BEC2_NOTE + " The ECDH number itself is OpenSSL's (TLC integers are 32-bit).", "TLA+ specs MC_Bec2/Bec2Concrete : TLC exhaustive algebra, C->S trace validation with OpenSSL as ECDH oracle", "DESIGN.md section 4 C09, section 6")
 
 
+claim("C16",
+      "TLC re-derives all fourteen pyaes lookup tables (dumped from the real module) entry by entry from the GF(2^8) definitions, checks FIPS-197 / SP 800-38A vectors on AES.tla, exhausts every chunking of bounded streams through the mode state machines and the block feeders (abstract cipher) and every interleaving of adapter calls on shared/separate objects; real pyaes blocks, mode objects (incl. CTR carry/wrap), Encrypter/Decrypter with every TLC-enumerated chunking, and adapter histories are judged by TLC with AES.tla; AES.tla and whole streams are cross-checked against openssl enc.",
+      "Trusted: TLC; GF(2^8) definitions in GF256.tla/AESDef.tla; OpenSSL for the cross-check; keys/blocks/IVs sampled (tables, chunkings and histories exhaustive).",
+      "TLA+ specs GF256/AESDef/AES/AESModes/Feeder/Adapter : TLC exhaustive (tables, chunkings, interleavings), C->S trace validation, OpenSSL oracle relation", "DESIGN.md section 4 C16")
+claim("C17",
+      "TLC exhausts the group law on whole tiny prime-order curves (closure, associativity, inverse, commutativity, scalar multiplication homomorphism, Jacobian classes, ECDH symmetry, public-point validation set); the library's own CurveFp/PointJacobi/Point are driven on the same curves over every pair of points (incl. infinity, equal, inverse) in many Jacobian scalings through add/double/negate/multiply (table, NAF, affine)/mul_add, every (x, y) as public key, all ECDH pairs, and TLC computes the expected result of every event; on the 17 shipped curves library results are related byte-for-byte to OpenSSL (scalar multiples, ECDH both ways, invalid points).",
+      "Trusted: TLC; tiny curves exercise the same formulas and zero-test branches as the shipped ones; on the shipped curves the numbers are OpenSSL's (TLC integers are 32-bit). Open known finding: subgroup check on cofactor > 1 curves (SECP112r2).",
+      "TLA+ spec ECGroup : TLC exhaustive on tiny curves, C->S trace validation of real point arithmetic, OpenSSL oracle relation on shipped curves", "DESIGN.md section 4 C17, section 6")
+claim("C18",
+      "TLC computes the exact accept set of the ECDSA verify equation over all (Q, z, r, s) with r, s in 0..2n on tiny curves and checks sign/verify consistency; the library's Public_key.verifies / Private_key.sign are run on all those inputs and judged by TLC; on the 17 shipped curves x SHA-1..SHA-512 x encodings: library signatures verify in OpenSSL and vice versa, every single-bit change of message / encoded signature and other keys are rejected with documented errors, r, s in {0, n, n+1, 2^k} rejected, deterministic signatures equal an independent RFC 6979 implementation with r taken from OpenSSL.",
+      "Trusted: TLC; OpenSSL and an independent hmac/hashlib RFC 6979 for the shipped curves (oracle relation). Open known finding: VerifyingKey.precompute() on loaded keys raises AssertionError.",
+      "TLA+ spec ECDSA : TLC exhaustive accept set on tiny curves, C->S trace validation, OpenSSL / RFC 6979 oracle relations", "DESIGN.md section 4 C18, section 6")
+
+
 def main():
     props = [json.loads(l) for l in open(os.path.join(VERIF, "properties.jsonl"))]
     m = {"version": 1,
